@@ -1,6 +1,7 @@
 import Pxv.Driver.Util
 import Pxv.Model.Order
 import Pxv.Model.Borrow
+import Pxv.Model.Stalemate
 open Lean Pxv.Driver
 
 namespace Pxv.CG
@@ -81,6 +82,14 @@ def handle (j : Json) : Json :=
     let r := moveWhileBorrowed g
     Json.mkObj [("r", "ok"), ("g", graphJ r.1), ("diags", diagsJ r.2),
       ("captured", Json.arr ((captured g).map (fun (k, v) => Json.arr #[Json.num (JsonNumber.fromNat k), natListJson v])).toArray)]
+  | some "os", some g =>
+    -- ↔ `ordering_stalemates`: the graph it returns, what it reports, and whether the input had a stalemate at all
+    let r := resolveStalemates g
+    let ds := r.2.map (fun d => match d with
+      | .stalemate n bl => Json.mkObj [("node", Json.num (JsonNumber.fromNat n)), ("blocked", natListJson bl)]
+      | .outOfFuel => Json.mkObj [("outOfFuel", boolJ true)])
+    Json.mkObj [("r", "ok"), ("g", graphJ r.1), ("diags", Json.arr ds.toArray),
+      ("stalemate", boolJ (findStalemate g []).isSome), ("orderOk", boolJ ((order r.1).isSome))]
   | some "order", some g =>
     match order g with
     | some σ => Json.mkObj [("r", "ok"), ("order", natListJson σ)]
